@@ -50,6 +50,7 @@ func plans(id, tier string) (Plan, bool) {
 		for _, t := range ts[:pick(2, 4)] {
 			jobs = append(jobs, Job{Pkg: pkgV2, Harness: "c01_sequences", Params: "t=" + t, Shards: pick(2, 8)})
 		}
+		jobs = append(jobs, Job{Pkg: pkgV2, Harness: "c01_embedded", Params: "t=0.8;history=normalize", Shards: 4})
 		jobs = append(jobs, Job{Pkg: pkgV2, Harness: "c01_lengths", Shards: 16})
 		jobs = append(jobs, Job{Pkg: pkgV2, Harness: "c01_refrains", Shards: 16})
 		for _, t := range []string{"0.7", "0.8", "0.9"} {
@@ -70,7 +71,7 @@ func plans(id, tier string) (Plan, bool) {
 			{Pkg: pkgV2, Harness: "c02_corpus", Params: "t=0.8;families=window;split=4", Shards: 16},
 			{Pkg: pkgV2, Harness: "c02_corpus", Params: "t=0.8;families=selfrepeat;ndocs=" + fmt.Sprint(pick(60, 431)), Shards: 16},
 			{Pkg: pkgV2, Harness: "c02_corpus", Params: "t=0.8;families=clusters;ndocs=" + fmt.Sprint(pick(60, 431)), Shards: 16},
-			{Pkg: pkgV2, Harness: "c02_corpus", Params: "t=0.8;trace=all;families=exact,truncate,partnoise,edit1;ndocs=" + fmt.Sprint(pick(24, 200)), Shards: 16},
+			{Pkg: pkgV2, Harness: "c02_corpus", Params: "t=0.8;trace=all;families=exact,truncate,partnoise,edit1,periodic;ndocs=" + fmt.Sprint(pick(24, 200)), Shards: 16},
 			{Pkg: pkgV2, Harness: "c02_corpus", Params: "t=0.8;families=boundary;ndocs=" + fmt.Sprint(pick(100, 431)), Shards: 16},
 			{Pkg: pkgV2, Harness: "c02_corpus", Params: "t=0.9;families=boundary;ndocs=" + fmt.Sprint(pick(40, 431)), Shards: 16},
 			{Pkg: pkgV2, Harness: "c02_corpus", Params: "t=0.7;families=boundary;ndocs=" + fmt.Sprint(pick(40, 431)), Shards: 16},
@@ -85,6 +86,7 @@ func plans(id, tier string) (Plan, bool) {
 			{Pkg: pkgV2, Harness: "c03_corpus", Params: "t=0.5;families=" + map[bool]string{false: "exact", true: "exact,edit1,scenario;ndocs=6"}[th], Shards: pick(6, 16)},
 			{Pkg: pkgV2, Harness: "c03_corpus", Params: "t=0.8;families=selfrepeat;ndocs=" + fmt.Sprint(pick(120, 431)), Shards: 16},
 			{Pkg: pkgV2, Harness: "c03_corpus", Params: "t=0.8;families=deeplines,wordset;split=3;ndocs=" + fmt.Sprint(pick(100, 431)), Shards: 16},
+			{Pkg: pkgV2, Harness: "c03_corpus", Params: "t=0.8;trace=all;families=concat,scenario,edit1,periodic;ndocs=" + fmt.Sprint(pick(24, 120)), Shards: 16},
 			{Pkg: pkgV2, Harness: "c03_bytes", Shards: pick(2, 8)},
 			{Pkg: pkgV2, Harness: "c03_names", Shards: 1},
 		}}, true
@@ -229,6 +231,7 @@ func plans(id, tier string) (Plan, bool) {
 		jobs = append(jobs, Job{Pkg: pkgV2, Harness: "c10_window", Shards: 16})
 		jobs = append(jobs, Job{Pkg: pkgV2, Harness: "c10_wordsets", Shards: 16})
 		jobs = append(jobs, Job{Pkg: pkgV2, Harness: "c10_entities", Shards: 8})
+		jobs = append(jobs, Job{Pkg: pkgV2, Harness: "c10_runes", Shards: 16})
 		// every trace phase switched on (diagnostic code on the same paths)
 		jobs = append(jobs, Job{Pkg: pkgV2, Harness: "c10_total", Params: fmt.Sprintf("shape=3;maxlen=%d;trace=all", pick(2, 3)), Shards: pick(4, 16), MaxProcs: 2})
 		return Plan{Level: "exploration", Jobs: jobs}, true
@@ -326,6 +329,7 @@ func plans(id, tier string) (Plan, bool) {
 			{Pkg: pkgTok, Harness: "c17_tokens", Shards: pick(4, 16)},
 			{Pkg: pkgTok, Harness: "c17_tokens", Params: "alphabet=classes", Shards: pick(4, 16)},
 			{Pkg: pkgTok, Harness: "c17_longwords", Shards: pick(4, 12)},
+			{Pkg: pkgTok, Harness: "c17_runes", Shards: 8},
 			{Pkg: pkgSS, Harness: "c17_candidates", Shards: 16},
 			{Pkg: pkgSS, Harness: "c17_candidates", Params: "alphabet=ab", Shards: 16},
 			// other granularities (window sizes) than the default 3: steps of more than one token
